@@ -116,9 +116,10 @@ def combine(rng, cs):
             t = {"c": op, "a": t, "b": c}
         else:
             t = {"c": op, "a": c, "b": t}
-    if always and len(cs) >= 3 and rng.random() < 0.1:
-        # an or somewhere inside an and-chain: nothing is always applicable then
-        t = {"c": "and", "a": {"c": "or", "a": cs[0], "b": cs[1]}, "b": t}
+    if always and len(cs) >= 3 and rng.random() < 0.15:
+        # an or somewhere inside an and-chain (left or right operand): nothing is always applicable then
+        alt = {"c": rng.choice(["or", "xor"]), "a": cs[0], "b": cs[1]}
+        t = {"c": "and", "a": alt, "b": t} if rng.random() < 0.5 else {"c": "and", "a": t, "b": alt}
         always = False
     return t, always
 
@@ -184,6 +185,19 @@ def strata(tier):
                           "cast": None, "doc": rng.choice(DOCS), "_always": True})
         rng.shuffle(rules)
         yield {"rules": rules, "nested": j % 2 == 0, "from_path": None, "anchor": None}
+    # deep chains: headings beyond level 6
+    for j in range(6 if tier == "quick" else 20):
+        rng = G.rng_for("C20-deep", j)
+        depth = 6 + j % 4
+        rules, parts = [], []
+        for dd in range(depth + 1):
+            kids = [f"lvl{dd}"] if dd < depth else []
+            cs = node_conds(rng, "map" if dd < depth else "leaf", kids)
+            cond, always = combine(rng, cs)
+            rules.append({"path": PC.mkpath(list(parts)), "cond": cond, "cast": None, "doc": rng.choice(DOCS), "_always": always})
+            parts.append({"p": "prim", "v": f"lvl{dd}"})
+        rng.shuffle(rules)
+        yield {"rules": rules, "nested": True, "from_path": None, "anchor": rng.choice([None, "root"])}
     # explicit map_value / list_value parts with integer keys or labels (outside the statement's "string / integer
     # keys and bare parts": the key conditions' child nodes are keyed differently there even on a correct tree,
     # so only the model-free clauses are judged: no error, one node per rule, parent relation, flat == nested, HTML)
@@ -240,7 +254,8 @@ class Checker(HTMLParser):
         self.text = []
 
     def handle_starttag(self, tag, attrs):
-        if tag not in ALLOWED_TAGS:
+        # (the writer numbers headings h<start level + depth> without an upper limit: its own vocabulary)
+        if tag not in ALLOWED_TAGS and not re.fullmatch(r"h[0-9]+", tag):
             self.errors.append(("foreign-tag", tag))
         for k, v in attrs:
             if k not in ALLOWED_ATTRS:
@@ -429,7 +444,7 @@ def run(case, ctx):
                 esc = html.escape(s)
                 # text made only of the writer's own bare tags (e.g. '</p></div>') also occurs as
                 # genuine markup; injected copies of it are caught by the tag-stack check instead
-                if not re.sub(r"</?(div|section|span|a|code|p|h[1-9])>", "", s).strip():
+                if not re.sub(r"</?(div|section|span|a|code|p|h[0-9]+)>", "", s).strip():
                     continue
                 if esc != s and s in out:
                     # the raw form may only occur if it coincides with text the writer produced itself
